@@ -67,9 +67,14 @@ def _rlencode(case):
 def _index(case):
     from cooler.create._create import index_bins, index_pixels
     xs, n = case["xs"], case["n"]
-    grp = {"bin1_id": np.array(xs, dtype=np.int64), "chrom": np.array(xs, dtype=np.int64)}
-    got = [int(x) for x in impl(index_pixels, grp, n, len(xs))]
-    got2 = [int(x) for x in impl(index_bins, grp, n, len(xs))]
+    # real (in-memory) HDF5 datasets, laid out as cooler lays them out: a rewrite may use any dataset attribute
+    import h5py
+    with h5py.File(f"c02-index-{os.getpid()}.h5", "w", driver="core", backing_store=False) as f:
+        grp = f.create_group("t")
+        for nm in ("bin1_id", "chrom"):
+            grp.create_dataset(nm, data=np.array(xs, dtype=np.int64), maxshape=(None,), chunks=(4,), compression="gzip")
+        got = [int(x) for x in impl(index_pixels, grp, n, len(xs))]
+        got2 = [int(x) for x in impl(index_bins, grp, n, len(xs))]
     m = drv().ask("C02.index", xs=xs, n=n)
     assert m["model"] == m["spec"], "theorem indexPixels_spec contradicted"
     if got != m["spec"] or got2 != m["spec"]:
